@@ -33,8 +33,6 @@ def printable_schema(rng):
         res = []
         for o in os:
             fl = o.flags & ~(DEPRECATED | gen.DROP | KEYSTRVAL)
-            if o.ty == "sec" and (fl & TITLE) and not (fl & MULTI):
-                fl |= MULTI
             res.append(Opt(o.name, o.ty, fl, o.default, "-", clean(o.subs)))
         return res
     return clean(opts)
